@@ -692,6 +692,12 @@ class Evaluator:
                 target) is not None:
             env.vars[_dotted(target)] = value
         elif isinstance(target, ast.Tuple):
+            at = value.as_atom() if isinstance(value, Poly) else None
+            if at is not None and at[0] == "cell":
+                # unpacking a row (an element of a list of lists / a row of
+                # a matrix) is indexing it position by position
+                value = tuple(Poly.atom(("cell", show_atom(at), (
+                    Poly.const(k),))) for k in range(len(target.elts)))
             if not isinstance(value, tuple) or len(value) != len(
                     target.elts):
                 raise Unsupported("tuple assignment", target)
